@@ -15,7 +15,7 @@ ID = "C02"
 LEVEL = "exploration"
 RULE = ("all ordered pairs (W_L,W_R) of a product alphabet of states per (model, gamma|g|a, registered flux [, face direction]); "
         "oracles: F(W,W)=f(W), F(mirror W_R, mirror W_L)=parity*F(W_L,W_R), F=f(upwind) on the supercritical sub-lattice "
-        "(regime decided by an independent Roe average). non-trivial = W_L != W_R (pairs are distinct by construction)")
+        "(regime decided by an independent Roe average); batch independence: the mixed batch bit-identical to homogeneous batches per branch signature and to single-pair calls. non-trivial = W_L != W_R (pairs are distinct by construction)")
 ASSUMPTIONS = ["states between alphabet letters are not explored",
                "round-off tolerance 64 eps x (rho_max * s_max^k) with s_max the largest |u|+c of both states"]
 EPS = np.finfo(float).eps
@@ -387,6 +387,43 @@ def evaluate(kind, param, flux, L, R, res=None):
     return out
 
 
+def batch_independence(kind, param, flux, L, R, res=None):
+    """a numerical flux is an elementwise function of its face states: the value for a pair must not depend on which other pairs share the
+    call.  The mixed batch (judged above) is compared bit for bit with (i) homogeneous batches, one per reference branch signature, and
+    (ii) one call per pair on a sub-lattice."""
+    M = build(kind, param)
+    out = []
+    base = "C02/%s/%s" % (M.name, flux if flux is not None else "builtin")
+    with np.errstate(all="ignore"):
+        F = M.F(flux, L, R)
+        br = M.branch(L, R)
+    n = L.shape[1]
+    for sig in np.unique(br):
+        idx = np.flatnonzero(br == sig)
+        with np.errstate(all="ignore"):
+            G = M.F(flux, L[:, idx], R[:, idx])
+        if res is not None:
+            res.evals += idx.size
+        for k, comp in enumerate(M.comps):
+            bad = ~((G[k] == F[k][idx]) | (np.isnan(G[k]) & np.isnan(F[k][idx])))
+            for j in np.flatnonzero(bad)[:5]:
+                i = idx[j]
+                out.append(("%s/batch-dependent/homogeneous-batch/%s/%s" % (base, comp, sig), "%s %s: pair L=%r R=%r gives %r in a batch of %d pairs that all have signature %s, %r in the mixed batch"
+                            % (M.name, M.tag(), L[:, i].tolist(), R[:, i].tolist(), G[k][j], idx.size, sig, F[k][i]), int(i), "group"))
+    step = max(1, n // 1500)
+    for i in range(0, n, step):
+        with np.errstate(all="ignore"):
+            G = M.F(flux, L[:, i:i + 1], R[:, i:i + 1])
+        if res is not None:
+            res.evals += 1
+        for k, comp in enumerate(M.comps):
+            g = np.asarray(G[k]).ravel()[0]
+            if not (g == F[k][i] or (g != g and F[k][i] != F[k][i])):
+                out.append(("%s/batch-dependent/single-pair/%s/%s" % (base, comp, br[i]), "%s %s: pair L=%r R=%r gives %r when passed alone, %r in the mixed batch"
+                            % (M.name, M.tag(), L[:, i].tolist(), R[:, i].tolist(), g, F[k][i]), int(i), "single"))
+    return out
+
+
 def configs(tier):
     th = tier == "thorough"
     cfg = []
@@ -417,6 +454,11 @@ def shard(arg):
         l, r = L[:, s:s + step], R[:, s:s + step]
         for site, what, i in evaluate(kind, param, flux, l, r, res):
             res.violation(site, what, {"kind": kind, "param": param, "flux": flux, "L": l[:, i].tolist(), "R": r[:, i].tolist()})
+    # batch composition: on the quick alphabet of this configuration (one mixed batch small enough to hold)
+    Pq = states_of(kind, param, "quick")
+    Lq, Rq = pairs(Pq)
+    for site, what, i, mode in batch_independence(kind, param, flux, Lq, Rq, res):
+        res.violation(site, what, {"kind": kind, "param": param, "flux": flux, "batch": mode, "index": i})
     k = L.shape[1] // 3
     res.sample({"model": kind, "param": param, "flux": flux, "L": L[:, k].tolist(), "R": R[:, k].tolist()}, cap=1)
     return res
@@ -430,6 +472,9 @@ def replay(case):
     param = case["param"]
     if isinstance(param, list):
         param = tuple(param)
+    if "batch" in case:
+        Lq, Rq = pairs(states_of(case["kind"], param, "quick"))
+        return [(s_, w) for s_, w, i, mode in batch_independence(case["kind"], param, case["flux"], Lq, Rq) if i == case["index"] and mode == case["batch"]]
     L = np.array(case["L"], float)[:, None]
     R = np.array(case["R"], float)[:, None]
     return [(s, w) for s, w, _ in evaluate(case["kind"], param, case["flux"], L, R)]
